@@ -18,7 +18,7 @@ def anchor_patterns(prop):
 
 
 def run_monitors(ctx, res, monitors, spec_filter=None, prefixes=None, specs_override=None,
-                 resume_legs=(3, 6, 10, 15, 21), quiet=False, quick_baselines=None):
+                 resume_legs=(3, 6, 10, 15, 21), quiet=False, quick_baselines=None, deviations=1, derive=True):
     tier = "thorough" if ctx.thorough else "quick"
     sp = specs_override if specs_override is not None else specmod.families(tier)
     if spec_filter is not None:
@@ -28,10 +28,10 @@ def run_monitors(ctx, res, monitors, spec_filter=None, prefixes=None, specs_over
     baselines = [0, 1, 2, 3, QUIET, BUSY] if ctx.thorough else [0, 1 + ctx.seed % 3] + ([QUIET] if quiet else [])
     if quick_baselines is not None and not ctx.thorough:
         baselines = list(quick_baselines)
-    bad, st = envdrive.explore(sp, monitors, 1, baselines, ctx.cores, derive=specmod.fast_variant,
-                              resume_legs=resume_legs, followup=True)
+    bad, st = envdrive.explore(sp, monitors, deviations, baselines, ctx.cores,
+                              derive=specmod.fast_variant if derive else None, resume_legs=resume_legs, followup=True)
     sp = sp + st.get("derived_specs", [])
-    if ctx.thorough:
+    if ctx.thorough and deviations >= 1:
         # two deviations around the constant-median baseline on the cheaper specs
         cheap = [s for s in sp if st["per_spec"].get(s.name, {}).get("draws", 10 ** 9) <= 110]
         bad2, st2 = envdrive.explore(cheap, monitors, 2, [0], ctx.cores)
